@@ -687,6 +687,11 @@ def tree_state():
     h.update(diff.encode())
     h.update(open(HARNESS, "rb").read())
     h.update(open(__file__.replace(".pyc", ".py"), "rb").read())
+    for prop in ("C06", "C16", "C09"):      # the corpus scenarios are part of every run
+        d = os.path.join(ROOT, "corpus", prop)
+        for fn in sorted(os.listdir(d)) if os.path.isdir(d) else []:
+            h.update(fn.encode())
+            h.update(open(os.path.join(d, fn), "rb").read())
     return h.hexdigest()[:16]
 
 
